@@ -11,9 +11,16 @@ def addr_h160(h):
 
 
 def std_txs(h, coin='bitcoin'):
-    """one coinbase: a P2PKH output unique to the height and an OP_RETURN marker 'blk<h>'"""
-    return [btc.coinbase(h, None, outs=[{'val': 50 * 10 ** 8, 'spk': btc.p2pkh(addr_h160(h))},
-                                        {'val': 0, 'spk': b'\x6a' + btc.push(b'blk%d' % h)}])]
+    """one coinbase: a P2PKH output unique to the height and an OP_RETURN marker 'blk<h>'; every third block has the shape of a
+    post-segwit block: BIP34 height push in the coinbase script, witness reserved value, witness commitment output"""
+    cb = btc.coinbase(h, None, outs=[{'val': 50 * 10 ** 8, 'spk': btc.p2pkh(addr_h160(h))},
+                                     {'val': 0, 'spk': b'\x6a' + btc.push(b'blk%d' % h)}])
+    if h % 3 == 2:
+        hb = h.to_bytes(max(1, (h.bit_length() + 8) // 8), 'little')
+        cb['ins'][0]['sig'] = btc.push(hb) + b'/verif/' + hb
+        cb['ins'][0]['wit'] = [b'\0' * 32]
+        cb['outs'].append({'val': 0, 'spk': b'\x6a\x24\xaa\x21\xa9\xed' + btc.sha256d(b'commitment%d' % h)})
+    return [cb]
 
 
 def grind(prev, txs, t, ver, pred, start=0, bits=0x1d00ffff):
